@@ -14,12 +14,15 @@ from vf.core import LibRaised
 
 ID = "C19"
 POOL = ["a", "b", "é", "ü", "ß", "€", "S"]
+# characters of three and four bytes whose encodings share a byte value under different prefixes
+# (E2 82 AC / E3 82 A2, E4 B8 AD / E5 B8 88, E2 98 83 / F0 9F 98 80): one case in six draws from these
+SHARING = ["€", "ア", "中", "师", "☃", "😀"]
 RULE = (
     "case = (Lark grammar printed from the harness AST: 1-3 rules using sequence, alternation, ?, [], "
     "*, +, ~n..m, groups, rule references incl. recursion, named terminals and anonymous string "
     "literals; 1-3 terminals defined by strings (optionally case-insensitive, incl. sharp s), small "
     "regexes with classes / negated classes / dot / +, or compositions of other terminals; optional "
-    "%ignore of one or two terminals; character set of 2-4 characters incl. multi-byte ones; recursion "
+    "%ignore of one or two terminals; character set of 2-4 characters incl. multi-byte ones (one case in six: 3- and 4-byte characters sharing a byte value under different prefixes); recursion "
     "left|right); candidates = all strings <=3 over the set, strings sampled from the grammar, their "
     "deletions / insertions / substitutions / transpositions; for bytes additionally truncated "
     "encodings and invalid continuation bytes; char_cfg()(text)>0 <=> reference accepts; "
@@ -101,7 +104,7 @@ def expr(draw, rules, terms, chars, depth):
 @st.composite
 def strategy(draw, tier="quick"):
     k = draw(st.integers(2, 3))
-    chars = draw(st.lists(st.sampled_from(POOL), min_size=k, max_size=k, unique=True))
+    chars = draw(st.lists(st.sampled_from(SHARING if draw(st.integers(0, 5)) == 0 else POOL), min_size=k, max_size=k, unique=True))
     nt = draw(st.integers(1, 3))
     # terminal names, incl. families that look like names a converter might generate from another
     # terminal's name and a state number ("the names of terminals and nonterminals never collide")
